@@ -30,8 +30,12 @@ ASSUMPTIONS = ["float32 bounds carry 1e-6*magnitude slack; monotonicity / equali
                "float32 softmax underflow (|param| >~ 1e2) is outside the rational model: finding F-C15-b",
                "geometric mean: oracle only (exp/log are not rational); its bounds / monotonicity are proved over the reals",
                "rank-2 keypoint_output_parameters with units > 1 are rejected by design (error message + the repo's own "
-               "test_suite_raises pin it) although the docstring lists the form: counted, not reported; the rank-3 form "
-               "with a unit axis of size 1 is accepted since ab7779b (fixed F-C15-c) and part of the main stream"]
+               "test_suite_raises pin it) although the docstring lists the form: counted as a class whose expected outcome "
+               "is that ValueError (theorem C15_T3_accepted_iff states the accepted forms); the rank-3 form "
+               "with a unit axis of size 1 is accepted since ab7779b (fixed F-C15-c) and part of the main stream",
+               "a FIXED missing_output_value is returned verbatim, also outside [keypoint_output_min, keypoint_output_max] "
+               "(by design: upstream's test expects 3.0 with the range [0, 1]): clause missing_fixed_exact (exact equality), "
+               "the bounds clause applies to it iff the configured value lies in the range"]
 
 EPS, RTOL = alt.EPS, alt.RTOL
 PER_CLASS = 25      # recorded failures per (key, clause): one systematic class must not exhaust the evidence buffer
@@ -99,7 +103,21 @@ def oracle_pwl(ctx, case, real):
         if abs(yb - mo) > 8 * rtol * max_abs([mo, mag]):
           fail(ctx, "missing", key, case, yb, "unit %d: missing input %r must map to the missing output %r" % (u, xs[b], mo))
         if case["miss"] == "fixed":
-          continue                       # a user-fixed missing output is returned verbatim, inside the range or not
+          # an explicit class, not an exemption: a user-fixed missing_output_value is returned VERBATIM (tf.fill with the
+          # Python float; theorem C15_T1_fixed_missing_exact) -- exact equality in the call's dtype, inside the output
+          # range or not. Outside the range it is accepted BY DESIGN (upstream's conditional_pwl_calibration_test calls
+          # pwl_calibration_fn with the default range [0, 1] and missing_output_value=3.0 and expects 3.0), so the bounds
+          # clause below applies iff the configured value lies in the range.
+          want = float(alt.npd(dtype)(float(case["mov"])))
+          inside = omin <= want <= omax
+          ctx.count("pwl-x:missing-fixed:%s" % ("inside-range" if inside else "outside-range"))
+          if yb != want:
+            fail(ctx, "missing_fixed_exact", key, case, yb,
+                 "unit %d: missing input %r must return missing_output_value=%r exactly" % (u, xs[b], want))
+          if not inside:
+            continue
+        else:
+          ctx.count("pwl-x:missing-derived")
       if yb < omin - slack or yb > omax + slack:
         fail(ctx, "bounds", key, case, yb, "unit %d x=%r outside [%r, %r] (slack %g)" % (u, xs[b], omin, omax, slack))
       if miss[b]:
@@ -248,10 +266,17 @@ def check_forms(ctx, case, real, replies):
              "broadcast over units differs from the hand-tiled parameters")
       else:
         ctx.count("pwl-forms:unit-broadcast-equals-tiling")
-    elif real["err"]:
-      # rank-2 parameters with units > 1: rejected on purpose ("should be 3 dimensional when units > 1", pinned by
-      # conditional_pwl_calibration_test.test_suite_raises) although the docstring lists the form
-      ctx.count("pwl-forms:rank2-with-units-rejected-by-design")
+    else:
+      # rank-2 parameters with units > 1: rejected on purpose -- ValueError("... should be 3 dimensional when units > 1"),
+      # pinned by upstream's conditional_pwl_calibration_test.test_suite_raises (units=3 with the rank-2 kernel_4 must
+      # raise); the docstring lists (1, P) / (batch, P) without saying "units == 1", its broadcast rule "(1 or batch, 1
+      # or units, P)" does. Theorem C15_T3_accepted_iff / C15_T3_documented_output_forms: accepted iff units <= 1.
+      # Counted as its own class; anything but that ValueError is reported.
+      ctx.count("pwl-forms:rank2-with-units>1:%s" % (real["err"] or "accepted"))
+      if real["err"] != "ERR ValueError":
+        fail(ctx, "call_forms", dict(fn="pwl_calibration_fn", cls="rank2_output_params_units_gt_1"), case,
+             real["err"] or "accepted", "rank-2 keypoint_output_parameters with units=%d: the documented outcome is the "
+             "ValueError 'should be 3 dimensional when units > 1'" % case["units"])
   if case["forms_kind"] == "invalid" and not real["err"]:
     if case.get("bad") == "zero_input_range" and not np.all(np.isfinite(real["y"])):
       fail(ctx, "finite", dict(fn="pwl_calibration_fn", cls="zero_input_range"), case, real["y"],
